@@ -495,8 +495,9 @@ theorem inv_wBegin (nw : Nat) (s s' : State) (c : Nat) (h : Inv nw s)
     (hs : step nw s (.wBegin c) = some s') : Inv nw s' := by
   simp only [step] at hs
   split at hs <;> simp at hs
-  subst hs
-  exact inv_waiter_update nw s c _ h (by simp [WaiterOk])
+  all_goals
+    subst hs
+    exact inv_waiter_update nw s c _ h (by simp [WaiterOk])
 
 theorem inv_wEmpty (nw : Nat) (s s' : State) (c : Nat) (h : Inv nw s)
     (hs : step nw s (.wEmpty c) = some s') : Inv nw s' := by
@@ -591,7 +592,7 @@ theorem fut_step (nw : Nat) (s s' : State) (e : Event) (t : Nat) (r : Int) (hinv
     obtain ⟨_, hst⟩ := hst; subst hst; exact hf
   | setStop => simp only [step] at hst; split at hst <;> simp at hst; subst hst; exact hf
   | join => simp only [step] at hst; split at hst <;> simp at hst; subst hst; exact hf
-  | wBegin _ => simp only [step] at hst; split at hst <;> simp at hst; subst hst; exact hf
+  | wBegin _ => simp only [step] at hst; split at hst <;> simp at hst <;> (subst hst; exact hf)
   | wEmpty _ =>
     simp only [step] at hst; split at hst <;> try simp at hst
     obtain ⟨_, hst⟩ := hst; subst hst; exact hf
